@@ -16,6 +16,7 @@ Ties, re-established on every run:
 import sys
 from common import *
 import isa
+import c04_extra
 from amoco.arch import core as acore
 
 
@@ -27,6 +28,7 @@ def main(tier):
     ck = Check("C04", tier)
     quick = tier == "quick"
     r = rng("C04")
+    r_long, r_end = rng("C04.long"), rng("C04.endian")   # own streams: the base sweep of a seed stays what it was
     broken = ck.build_and_audit(["Amoco.Props.C04", "amoco_driver"])
     drv = Driver()
     isas, bad = isa.load_all()
@@ -34,6 +36,9 @@ def main(tier):
     ck.cov["isa_modules_not_importable"] = bad
     ties_broken = []
     ndir, nrand = (120, 40) if quick else (3000, 1000)
+    npfx = 150 if quick else 3000            # prefixed boundary-form inputs, each followed by a plain probe
+    nlong = 80 if quick else 2000            # inputs longer than maxlen for variable-length specs
+    tg_dir, tg_rand, tg_long = (400, 60, 40) if quick else (6000, 1000, 400)   # per endianness toggle and mode
 
     for name in sorted(isas):
         I = isas[name]
@@ -67,7 +72,7 @@ def main(tier):
                 ties_broken.append(("side condition of accept_in_key fails on %s: %s" % (label, side[:3]), {"isa": label}, side[:10], None))
             # ---- generated inputs: oracle + attempt traces -------------------------------------
             ref_index = {id(s): k for k, s in enumerate(ref_order)}
-            inputs = isa.gen_inputs(I, specs, r, ndir, nrand)
+            inputs = isa.gen_inputs(I, specs, r, ndir, nrand) + c04_extra.long_inputs(I, specs, r_long, nlong) + c04_extra.prefix_histories(I, specs, r_long, npfx)
             routes = drv.ask({"op": "dis.route", "be": I.be, "maxlen": I.maxlen, "specs": req["specs"], "tree": req["tree"],
                               "inputs": [list(bs) for _, bs in inputs]})
             nfail = 0
@@ -84,6 +89,10 @@ def main(tier):
                 ck.count("%s.%s" % (kind, real[0]))
                 if real[0] == "ok" and real[1].spec.pfx is not True and len(real[1].bytes) > real[1].spec.mask.size // 8 and any(s.pfx is True for s in specs):
                     ck.count("with-prefix-or-tail")
+                if len(bs) > I.maxlen:
+                    ck.count("longer-than-maxlen.%s" % real[0])
+                    if real[0] == "ok" and len(real[1].bytes) > I.maxlen:
+                        ck.count("consumed-more-than-maxlen")
                 if real_fp != ref_fp:
                     nfail += 1
                     ck.report("C04:%s:%s" % (label, (real[1].spec.format if real[0] == "ok" else real_fp[0])),
@@ -127,6 +136,8 @@ def main(tier):
                                       "oracle", "Amoco.Dis.Props.lookup_eq_scan", case={"isa": name, "mode": idx, "bytes": bs.hex(), "modes": [p[0] for p in permode]},
                                       real=real_fp, expected=ref_fp)
             I.set_mode(0)
+        # fetch endianness read from run-time state: every value of it is a decode mode of the same object
+        c04_extra.explore_toggles(ck, I, name, r_end, sorted_stable, tg_dir, tg_rand, tg_long)
     drv.close()
     for b in broken:
         ck.report("C04:proof-obligation", "proof obligation broken: %s" % b[:300], "proof-obligation", b[:2000], failing_input_found=False)
@@ -139,14 +150,24 @@ def main(tier):
                        "modules that fail to import are not covered (listed in coverage.isa_modules_not_importable)"]
     ck.trusted += ["harness/isa.py dumps of the real trees and spec lists", "compiled Lean checker `checkTree` (evaluation); its soundness theorem is kernel-checked",
                    "Python reference scan (oracle) using the real ispec.decode"]
-    return ck.finish("per ISA module and mode: the real tree (K) + spec-directed / mutated / truncated / prefixed and random byte strings of length 0..maxlen+4; non-trivial = decodes to an instruction")
+    return ck.finish("per ISA module and mode: the real tree (K) + spec-directed / mutated / truncated / prefixed and random byte strings of length 0..maxlen+4; "
+                     "variable-length specs followed by LEB128-style operands padded with redundant continuation bytes so that the instruction is longer than maxlen "
+                     "(buckets longer-than-maxlen.*, consumed-more-than-maxlen); in modes with prefix specs, prefixed variable-length specs with boundary mod/rm-style first tail bytes each followed by an unprefixed probe, inside the one history (buckets pfx-history.*); every run-time fetch-endianness toggle found by reflection on disassembler.endian "
+                     "(coverage.endian_toggles) flipped on the live disassembler object — held, alternating between two calls, restored — and each call compared with "
+                     "the scan under the endianness then in force (buckets endian-toggle[e].*); non-trivial = decodes to an instruction")
 
 
 
 
 def replay(path):
     import json
-    return isa.replay_decode_case(json.load(open(path)))
+    rec = json.load(open(path))
+    case = rec.get("case") or {}
+    if case.get("toggle") and case.get("isa"):
+        ok, _ = isa.load_all([case["isa"].split("/")[0]])
+        for I in ok.values():          # same module / disassembler object as the one replay_decode_case loads
+            print("fetch-endianness state %r applied: %s" % (case["toggle"], c04_extra.apply_recorded_toggle(I.dis, case["toggle"])))
+    return isa.replay_decode_case(rec)
 
 if __name__ == "__main__":
     sys.exit(main(sys.argv[1] if len(sys.argv) > 1 else "quick"))
